@@ -4,6 +4,7 @@ CONSTANTS
   Txs <- TraceTxs
   DenomValue <- TraceDV
   RYW = TRUE
+  BaseFeeOn = FALSE
   MaxTxPerBlock = 1000
   MaxBlocks = 100000
 INVARIANTS ObservationsConform SpentAtMostOnce NoValueFromNothing OutputsOnlyLocalQi
